@@ -4,6 +4,7 @@ import HexVerif.Lemmas.XcmpStage3
 import HexVerif.Lemmas.XcmpWitness
 import HexVerif.Lemmas.XcmpV1
 import HexVerif.Lemmas.XcmpV2
+import HexVerif.Lemmas.XcmpOnHexsim
 import HexVerif.Xcmp.Compile
 import HexVerif.X.Sem
 /-!
@@ -63,6 +64,8 @@ import HexVerif.X.Sem
     reflective check `v2Check` (per procedure: `PCtx.WFS` at the lowest stack pointer - lifted to
     every activation by `wfs_shift` -, code positions, frame accounting, symbol-table facts; and
     `imageWords <= spv - 64 * Smax`).
+  * `C01_v3_on_hexsim`: the same for the class `v3Ok`, stated over the models of ALL THREE tools: compiler
+    model's file -> model of hexsim's `load()` -> model of hexsim's `run()` (loader round trip + C02).
   * `C01_v3_partial`: the FULL statement, end to end, for the class `v3Ok P` (decidable): the class
     V2 plus calls of PURE functions (outside `X.impureProcs P`; call-free actuals) anywhere in the
     operands of right-hand sides, `return` values and the conditions of `if`/`while`
@@ -387,6 +390,25 @@ theorem C01_v3_partial (P : X.Program) (inp : X.Input) (n : Nat) (β : X.Behavio
   intro hrun hcomp
   obtain ⟨m, code, j, s', io, h1, h2, h3, h4⟩ := C01s.v3_whole P inp n β img hr hcomp hrun
   exact ⟨m, code, j, s', io, h1, h2, h3, h4⟩
+
+/-- **`C01_v3_on_hexsim`.**  The C01 statement as the property words it - "running the binary that
+    xcmp emits on the Hex simulator" - for the class `v3Ok`, over the MODELS of the three tools
+    joined end to end: the file the compiler model writes (`Asm.fileBytes img`: length word, image,
+    symbol table), read by the model of hexsim's `load()` into a processor constructed with ANY
+    content of its indeterminate members (`Sim.Proc.mk' j`), run by the model of hexsim's `run()`:
+    it returns the exit value of the reference semantics after exactly its I/O events, and the
+    symbol table it loaded is the assembler's (`Sim.loadedSymbols img.debug`).  Composition of
+    `C01_v3_partial`, the loader round trip `Sim.loadParts_fileBytes` and `C02_run`.
+    Side conditions on the image (decidable; evaluated per program by the compiler-model driver,
+    field `H=`): fewer than 2^31 symbols, no NUL byte inside a name. -/
+theorem C01_v3_on_hexsim (P : X.Program) (inp : X.Input) (n : Nat) (β : X.Behaviour) (img : Asm.Image) (j : Sim.Junk)
+    (hr : C01s.v3Ok P = true) (hrun : X.run P inp n = .defined β) (hcomp : Xcmp.compile P = .ok img)
+    (hn : img.debug.length < 2 ^ 31) (hnul : ∀ e ∈ img.debug, (0 : Byte) ∉ Sim.nameBytes e.1) :
+    ∃ p m code q, Sim.load (Sim.Proc.mk' j (Isa.IOSt.init inp.stdin inp.files)) (Asm.fileBytes img) = some p ∧
+      p.debugInfo = Sim.loadedSymbols img.debug ∧
+      Sim.run m p = .returned code q ∧ code = β.exit ∧ q.io.log.reverse = β.events ∧
+      inp.stdin.length - q.io.stdin.length = β.stdinConsumed :=
+  C01s.v3_on_hexsim P inp n β img j hr hcomp hrun hn hnul
 
 /-- `var g;
      func fib(val n) is if n < 2 then return n else return fib(n - 1) + fib(n - 2)
